@@ -36,7 +36,7 @@ MODES = ['-l', '-a', '-n', '--plid', '--src', '--src-exclude', '-j']
 @st.composite
 def junk(draw, tier):
     kind = draw(st.sampled_from(['empty', 'prefix', 'corrupt', 'corrupt', 'random', 'deep-json', 'subdir',
-                                 'bad-substructure']))
+                                 'bad-substructure', 'non-ascii']))
     if kind == 'empty':
         return {'kind': kind, 'data': b''}
     if kind == 'random':
@@ -50,6 +50,17 @@ def junk(draw, tier):
         pel = M.minimal_pel([M.default_src(), {'k': 'UD', 'ver': 1, 'sub': 1, 'comp': 0x2000, 'data': payload}],
                             ph=M.default_ph(eid=0x61000000, creator=ord('O')))
         return {'kind': kind, 'data': M.encode(pel)}
+    if kind == 'non-ascii':
+        # bytes that are not valid UTF-8 where the decoder expects text (a different exception type than
+        # the range-check failures of truncated files)
+        where = draw(st.sampled_from(['creator', 'src-ascii', 'mtms']))
+        pel = M.minimal_pel([M.default_src(), {'k': 'MT', 'ver': 1, 'sub': 0, 'comp': 0, 'mtm': b'9105-22A',
+                                               'sn': b'SN1234567890'}],
+                            ph=M.default_ph(eid=0x63000000, creator=ord('O')))
+        data = bytearray(M.encode(pel))
+        off = {'creator': 24, 'src-ascii': M.offsets(pel)[2] + 48, 'mtms': M.offsets(pel)[3] + 9}[where]
+        data[off] = draw(st.sampled_from([0x80, 0xFF, 0xC0, 0xFE]))
+        return {'kind': kind, 'data': bytes(data)}
     if kind == 'bad-substructure':
         # a PEL whose PCE / FRU / MRU substructure size byte is wrong
         c = draw(S.callout())
